@@ -55,7 +55,7 @@ theorem getD_set_W (W : Mat) (e i : Nat) (v : Row) (he : e < W.length) :
 /-- **`add_traj`** of a family row with recorded weights into the locked slot `e` -/
 theorem addTraj_fam {s s' : St} {H : List (Nat × Nat)} {tn tn0 : Nat} (e pnOld pn : Nat)
     (ens : Int) (valid : List Rat)
-    (hc : Core s ((e, pnOld) :: H) tn0) (hf : Fam s tn) (ha : addTraj s ens pn valid = .ok s')
+    (hc : CoreR s ((e, pnOld) :: H) tn0) (hf : Fam s tn) (ha : addTraj s ens pn valid = .ok s')
     (he : (ens + 1).toNat = e) (hens : -1 ≤ ens)
     (hrow : RowOk s.n e (padValid s ens valid)) (hlook : s.wts.lookup pn = some valid) :
     Fam s' tn := by
@@ -162,7 +162,7 @@ theorem keys_filter_subset {β : Type} (l : List (Nat × β)) (p : Nat × β →
 
 theorem perEns_fam (status : Status) : ∀ (l : List (Picked × List Rat)) {s s' : St}
     {H : List (Nat × Nat)} {tn tn' : Nat} {pns : List Nat},
-    Core s (heldPicked (l.map Prod.fst) ++ H) tn → Fam s tn →
+    CoreR s (heldPicked (l.map Prod.fst) ++ H) tn → Fam s tn →
     (∀ pw ∈ l, -1 ≤ pw.1.ens) →
     (status = .acc → ∀ pw ∈ l, VecOk s.n pw.1.ens pw.2) →
     treatOutput.perEns status s tn l = .ok (s', tn', pns) →
@@ -177,7 +177,7 @@ theorem perEns_fam (status : Status) : ∀ (l : List (Picked × List Rat)) {s s'
   | cons pw rest ih =>
     intro s s' H tn tn' pns h hf hge hvec hp
     obtain ⟨p, w⟩ := pw
-    have h : Core s ((slotOf p, p.pn) :: (heldPicked (rest.map Prod.fst) ++ H)) tn := by
+    have h : CoreR s ((slotOf p, p.pn) :: (heldPicked (rest.map Prod.fst) ++ H)) tn := by
       simpa [heldPicked] using h
     obtain ⟨hlt, htr, _⟩ := h.heldOk (slotOf p) p.pn (List.mem_cons_self ..)
     have hpe : -1 ≤ p.ens := hge (p, w) (List.mem_cons_self ..)
@@ -196,7 +196,7 @@ theorem perEns_fam (status : Status) : ∀ (l : List (Picked × List Rat)) {s s'
       obtain ⟨rfl, rfl, _⟩ := hp
       have hc2 := h.congr (s' := { { s with locked := popLocked p.pn s.locked.length 0 s.locked, lockedOrd := popLockedOrd p.pn s.locked.length 0 s.locked s.lockedOrd } with
           frac := s.frac ++ [(tn, List.replicate s.n 0)], wts := s.wts ++ [(tn, w)] })
-        ⟨rfl, rfl, rfl, rfl, rfl⟩
+        ⟨rfl, rfl, rfl, rfl, rfl, rfl⟩
       have hnew : tn ∉ s.wts.map Prod.fst := fun hm => Nat.lt_irrefl _ (hf.wkeys tn hm)
       have hf2 : Fam { { s with locked := popLocked p.pn s.locked.length 0 s.locked, lockedOrd := popLockedOrd p.pn s.locked.length 0 s.locked s.lockedOrd } with
           frac := s.frac ++ [(tn, List.replicate s.n 0)], wts := s.wts ++ [(tn, w)] } (tn + 1) := by
@@ -221,7 +221,7 @@ theorem perEns_fam (status : Status) : ∀ (l : List (Picked × List Rat)) {s s'
       have hvw := hvec hacc (p, w) (List.mem_cons_self ..)
       have hf3 := addTraj_fam (slotOf p) p.pn tn p.ens w hc2 hf2 hadd rfl hpe hvw
         (lookup_append_new _ _ _ hnew)
-      obtain ⟨hc3, ha3⟩ := addTraj_core (tn' := tn + 1) (slotOf p) p.pn tn p.ens w hc2 hadd rfl
+      obtain ⟨hc3, ha3⟩ := addTraj_coreR (tn' := tn + 1) (slotOf p) p.pn tn p.ens w hc2 hadd rfl
         (by
           intro b hb _ hcontra
           obtain ⟨q, hq, hqlt⟩ := h.live b hb
@@ -248,7 +248,7 @@ theorem perEns_fam (status : Status) : ∀ (l : List (Picked × List Rat)) {s s'
       simp only [Except.ok.injEq, Prod.mk.injEq] at hp
       obtain ⟨rfl, rfl, _⟩ := hp
       have hc2 := h.congr (s' := { s with locked := popLocked p.pn s.locked.length 0 s.locked, lockedOrd := popLockedOrd p.pn s.locked.length 0 s.locked s.lockedOrd })
-        ⟨rfl, rfl, rfl, rfl, rfl⟩
+        ⟨rfl, rfl, rfl, rfl, rfl, rfl⟩
       have hf2 : Fam { s with locked := popLocked p.pn s.locked.length 0 s.locked, lockedOrd := popLockedOrd p.pn s.locked.length 0 s.locked s.lockedOrd } tn :=
         hf.congr ⟨rfl, rfl, rfl, rfl, rfl, rfl, rfl⟩
       obtain ⟨w', hw1, hw2⟩ := hf.wts (slotOf p) p.pn hlt htr
@@ -261,7 +261,7 @@ theorem perEns_fam (status : Status) : ∀ (l : List (Picked × List Rat)) {s s'
         rw [hw2]
         exact hf.rows (slotOf p) hlt
       have hf3 := addTraj_fam (slotOf p) p.pn p.pn p.ens w' hc2 hf2 hadd rfl hpe hrow hlook
-      obtain ⟨hc3, ha3⟩ := addTraj_core (tn' := tn) (slotOf p) p.pn p.pn p.ens w' hc2 hadd rfl
+      obtain ⟨hc3, ha3⟩ := addTraj_coreR (tn' := tn) (slotOf p) p.pn p.pn p.ens w' hc2 hadd rfl
         (by
           intro b hb hne hcontra
           exact hne (h.inj b (slotOf p) p.pn hb hlt hcontra htr))
@@ -316,6 +316,83 @@ theorem perEns_acc_trajs : ∀ (l : List (Picked × List Rat)) {s s' : St} {tn t
         refine Or.inr ⟨h1, ?_⟩
         simp only [List.map_cons, List.mem_cons, not_or]
         exact ⟨fun h => hie (by unfold slotOf at h; exact h.symm), h2⟩
+
+/-- after the per-ensemble loop an idle slot was idle before and kept its row, or it was released
+    by the loop and then has a non-zero weight in its own ensemble -/
+theorem perEns_idle (status : Status) : ∀ (l : List (Picked × List Rat)) {s s' : St} {tn tn' : Nat}
+    {pns : List Nat}, s.W.length = s.locks.length →
+    treatOutput.perEns status s tn l = .ok (s', tn', pns) →
+    s'.W.length = s'.locks.length ∧ s'.toinitiate = s.toinitiate ∧ s'.locked0 = s.locked0 ∧
+    ∀ i : Nat, s'.locks[i]? = some false →
+      (s.locks[i]? = some false ∧ s'.W[i]? = s.W[i]?) ∨ entryM s'.W i i ≠ 0 := by
+  intro l
+  induction l with
+  | nil =>
+    intro s s' tn tn' pns hlen hp
+    simp only [treatOutput.perEns, Except.ok.injEq, Prod.mk.injEq] at hp
+    obtain ⟨rfl, _, _⟩ := hp
+    exact ⟨hlen, rfl, rfl, fun i hi => Or.inl ⟨hi, rfl⟩⟩
+  | cons pw rest ih =>
+    intro s s' tn tn' pns hlen hp
+    obtain ⟨p, w⟩ := pw
+    -- both branches: some state `s2` with the same W / locks / toinitiate / locked0, then add_traj
+    have key : ∀ (s2 s3 : St) (pn : Nat) (v : List Rat) (tnn : Nat) (pns4 : List Nat),
+        s2.W = s.W → s2.locks = s.locks → s2.toinitiate = s.toinitiate → s2.locked0 = s.locked0 →
+        addTraj s2 p.ens pn v = .ok s3 →
+        treatOutput.perEns status s3 tnn rest = .ok (s', tn', pns4) →
+        s'.W.length = s'.locks.length ∧ s'.toinitiate = s.toinitiate ∧ s'.locked0 = s.locked0 ∧
+        ∀ i : Nat, s'.locks[i]? = some false →
+          (s.locks[i]? = some false ∧ s'.W[i]? = s.W[i]?) ∨ entryM s'.W i i ≠ 0 := by
+      intro s2 s3 pn v tnn pns4 hW hL hto hl0 hadd hrec
+      obtain ⟨hlk, hv, hs3⟩ := addTraj_ok5 hadd
+      subst hs3
+      have he : (p.ens + 1).toNat < s.locks.length := by
+        rw [← hL]; exact getElem?_lt_of_some _ _ _ hlk
+      obtain ⟨g1, g2, g3, g4⟩ := ih (by
+        show (s2.W.set _ _).length = (s2.locks.set _ _).length
+        rw [List.length_set, List.length_set, hW, hL]; exact hlen) hrec
+      refine ⟨g1, g2.trans hto, g3.trans hl0, ?_⟩
+      intro i hi
+      rcases g4 i hi with ⟨h1, h2⟩ | h1
+      · change (s2.locks.set (p.ens + 1).toNat false)[i]? = some false at h1
+        change s'.W[i]? = (s2.W.set (p.ens + 1).toNat (padValid s2 p.ens v))[i]? at h2
+        by_cases hie : (p.ens + 1).toNat = i
+        · right
+          subst hie
+          rw [entryM_congr _ _ _ _ h2]
+          unfold entryM
+          rw [List.getD_eq_getElem?_getD (l := List.set _ _ _),
+            List.getElem?_set_self (by rw [hW, hlen]; exact he)]
+          exact hv
+        · left
+          rw [List.getElem?_set_ne hie, hL] at h1
+          rw [List.getElem?_set_ne hie, hW] at h2
+          exact ⟨h1, h2⟩
+      · exact Or.inr h1
+    unfold treatOutput.perEns at hp
+    simp only [] at hp
+    split at hp
+    · split at hp
+      · exact absurd hp (by simp)
+      rename_i s3 hadd
+      split at hp
+      · exact absurd hp (by simp)
+      rename_i s4 tn4 pns4 hrec
+      simp only [Except.ok.injEq, Prod.mk.injEq] at hp
+      obtain ⟨rfl, rfl, _⟩ := hp
+      refine key _ s3 tn w (tn + 1) pns4 ?_ ?_ ?_ ?_ hadd hrec <;> rfl
+    · split at hp
+      · exact absurd hp (by simp)
+      rename_i wOld _
+      split at hp
+      · exact absurd hp (by simp)
+      rename_i s3 hadd
+      split at hp
+      · exact absurd hp (by simp)
+      rename_i s4 tn4 pns4 hrec
+      simp only [Except.ok.injEq, Prod.mk.injEq] at hp
+      obtain ⟨rfl, rfl, _⟩ := hp
+      refine key _ s3 p.pn wOld tn pns4 ?_ ?_ ?_ ?_ hadd hrec <;> rfl
 
 /-! ### "record weights" and `write_to_pathens` -/
 
